@@ -26,8 +26,35 @@ from pyvc.vc import Unit
 MOD = "PyMatterSim.static.boo"
 CLS = "boo_3d"
 
-NOT_DECIDED = []
-TRUSTED = []
+NOT_DECIDED = [
+    "boo_3d.spatial_corr and boo_3d.time_corr (eq. 8, 9: frame average of conditional_gr / rescaled time_correlation of the q_lm field): "
+    "not put under contract in this round (they need the C13 / C14 callee contracts); observed while reading: spatial_corr returns the "
+    "columns r, gr, gA of conditional_gr averaged over frames and applies neither the 4 pi/(2l+1) factor nor the division by g(r) of "
+    "eq. (8); time_corr is renormalised to 1 at t = 0, so the 4 pi/(2l+1) factor of eq. (9) cancels",
+    "0 <= q_l <= 1 and |s_ij| <= 1 as statements about the returned arrays for every neighbour count: proved as lemmas on the spec "
+    "(Lagrange identity for l = 1..12; convexity identity, induction step and base for q_l); the induction over the number of bonds, "
+    "the linearity of the m-sum and the addition theorem for l > 10 are not mechanised (no Lean lemma library in this build)",
+    "reference values of perfect fcc/bcc/hcp/sc/icosahedral environments (instances, not a for-all statement); rotation invariance (C07)",
+    "values of the Wigner 3-j symbols (sympy) and w_l for degrees other than l = 2 (w_W_cap is proved for the concrete degree 2; the "
+    "loop over the (2l+1)^3 index triples is executed, not summarised); file layout of outputsij (np.savetxt with a format string "
+    "built from max_neighbors) in sij_ql_Ql",
+    "float32 storage of s_ij (A1: floats are reals; the replay compares s_ij with tolerance 2e-6); NaN for particles without neighbour "
+    "or with zero weight sum (excluded by the property's quantifier: every particle has >= 1 neighbour, positive weights)",
+]
+TRUSTED = [
+    "callee contract of read_neighbors (C05): frame k of the file on the k-th call; (N, 1+MAXCN) array, column 0 = cn_i in [1, MAXCN] with "
+    "MAXCN <= Nmax, columns 1..cn_i zero-based indices in [0, N) (int) resp. positive weights (float), zero padding beyond cn_i; the weight "
+    "file has the coordination numbers of the neighbour file",
+    "callee contract of sph_harm_l (C08 Dispatch): entry k of the returned table of length 2l+1 is Y_{l,k-l}(polar, azimuth); of remove_pbc (C02)",
+    "open() returns a handle whose only state is the number of frames consumed (pyvc/libext/C09.py); close() has no effect on the results",
+    "np.arctan2, np.arccos element-wise (uninterpreted with axioms), np.linalg.norm, np.concatenate(axis=0) of equally shaped items, "
+    "np.column_stack, np.ravel/reshape row-major, np.prod over a concrete axis, pandas DataFrame(2-D array, columns) / to_csv = write event, "
+    "sympy wigner_3j(...).evalf() = uninterpreted real function W3J of its six arguments",
+    "Sigma rules of pyvc/axioms.py: unfold, extensionality, zero tail (same lower bound, summand 0 beyond the shorter range), zero body "
+    "(counting sums); loop summaries (accumulation, guarded accumulation with hoisted guard / Kronecker-delta collapse, scatter store, "
+    "append of a fresh array, object attribute advanced per iteration) are validated by loop:init / loop:step obligations",
+    "sum_{j<cn} a = cn a and linearity of finite sums in the lemmas (equal weights, q_l bound)",
+]
 
 
 def _sum(xs):
@@ -340,6 +367,24 @@ def _check_method(B, obj, what, case, sy, q, Q, tmpdir, rng):
                             return (f"c = {c!r}, frame {s_}, particle {i} (cn = {len(sy['nbs'][s_][i][:Nmax])}, Nmax = {Nmax}): csv count of s_ij > c is "
                                     f"{int(row['sum_sij'])}, the number of bonds with s_ij > c is {counts[s_, i]}")
         return None
+    if what == "w_W_cap":
+        from sympy.physics.wigner import wigner_3j
+        files = (os.path.join(tmpdir, "w.dat"), os.path.join(tmpdir, "wcap.npy")) if case.endswith("files") else (None, None)
+        got_w, got_c = obj.w_W_cap(coarse_graining=cg, outputw=files[0], outputwcap=files[1])
+        want = np.zeros((T, N))
+        for m1 in range(-l, l + 1):
+            for m2 in range(-l, l + 1):
+                m3 = -m1 - m2
+                if -l <= m3 <= l:
+                    want += float(wigner_3j(l, l, l, m1, m2, m3)) * (f[:, :, m1 + l] * f[:, :, m2 + l] * f[:, :, m3 + l]).real
+        if not _close(got_w, want, rel=1e-8, abs_=1e-12):
+            return f"w_l differs from eq. (6): max error {np.max(np.abs(np.asarray(got_w) - want))}"
+        if not _close(got_c, want * n2 ** (-1.5), rel=1e-8, abs_=1e-12):
+            return f"w^_l differs from w_l (sum_m |q_lm|^2)^(-3/2): max error {np.max(np.abs(np.asarray(got_c) - want * n2 ** (-1.5)))}"
+        if files[0] and not (_close(np.load(files[0] + ".npy"), got_w) and _close(np.load(files[1]), got_c)
+                             and _close(np.loadtxt(files[0]).reshape(T, N), got_w, rel=1e-4, abs_=1e-6)):
+            return "saved files differ from the returned arrays"
+        return None
     return "no replay for " + what
 
 
@@ -613,6 +658,149 @@ class Sij(Unit):
         return _replay_boo("sij_ql_Ql", case, clause, model, seed)
 
 
-UNITS = [QlQl(), QlmQlm(), Sij()]
+# ---- w_W_cap (and utils.funcs.Wignerindex, executed from its real body) -----------------------------------------------
 
-MANIFEST = {"text": "", "note": ""}
+def w_spec(q, l, n, i):
+    """eq. (6): sum over m1+m2+m3 = 0 of W3j(l,l,l,m1,m2,m3) Re(q_lm1 q_lm2 q_lm3)  (index m + l)"""
+    from pyvc.libext.C09 import w3j
+    acc = 0
+    for m1 in range(-l, l + 1):
+        for m2 in range(-l, l + 1):
+            m3 = -m1 - m2
+            if -l <= m3 <= l:
+                pr = sv.mul(sv.mul(sv.as_cx(q.get((n, i, m1 + l))), sv.as_cx(q.get((n, i, m2 + l)))), sv.as_cx(q.get((n, i, m3 + l))))
+                acc = sv.add(acc, sv.mul(sv.re(pr), w3j(l, l, l, m1, m2, m3)))
+    return acc
+
+
+class WCap(Unit):
+    """boo_3d.w_W_cap(coarse_graining, outputw, outputwcap) -> (w, w^): eq. (6) and (7) at every (frame, particle); concrete degree l"""
+    module = MOD
+    qualname = f"{CLS}.w_W_cap"
+    prop = "C09"
+    timeout = 4      # the two loop-step identities are decided by the second solver (z3 4.8) in about a second
+
+    def cases(self):
+        return ["l=2/local/files", "l=2/coarse/nofile"]
+
+    def setup(self, ctx, case):
+        ls, cg, of = case.split("/")
+        l = int(ls[2:])
+        T, N = ctx.int("T"), ctx.int("N")
+        ctx.assume(T >= 1)
+        ctx.assume(N >= 1)
+        o, small, large, M = _boo_self(ctx, l, T, N)
+        files = (None, None) if of == "nofile" else ("w.dat", "wcap.npy")
+        inp = dict(l=l, T=T, N=N, q=large if cg == "coarse" else small, files=files, n=ctx.int("n"), i=ctx.int("i"))
+        return [o], dict(coarse_graining=(cg == "coarse"), outputw=files[0], outputwcap=files[1]), inp
+
+    def clause_names(self, case):
+        return ["returns-(w,w^)-of-shape-(T,N)", "w_l=sum_{m1+m2+m3=0}W3j*Re(q_m1*q_m2*q_m3)", "w^_l=w_l*(sum_m|q_lm|^2)^(-3/2)", "files=returned"]
+
+    def ensures(self, ctx, case, inp, out):
+        res = out.value
+        T, N, n, i, l, q = inp["T"], inp["N"], inp["n"], inp["i"], inp["l"], inp["q"]
+        ok = isinstance(res, tuple) and len(res) == 2 and all(isinstance(a, A.Arr) and a.ndim == 2 and A.dim_eq_syntactic(a.shape[0], T)
+                                                               and A.dim_eq_syntactic(a.shape[1], N) for a in res)
+        yield "returns-(w,w^)-of-shape-(T,N)", bool(ok)
+        if not ok:
+            return
+        w, wcap = res
+        inr = sv.and_(sv.cmp(">=", n, 0), sv.cmp("<", n, T), sv.cmp(">=", i, 0), sv.cmp("<", i, N))
+        want = w_spec(q, l, n, i)
+        yield "w_l=sum_{m1+m2+m3=0}W3j*Re(q_m1*q_m2*q_m3)", sv.implies(inr, sv.cmp("==", w.get((n, i)), want)), {"ring_only": True}
+        n2 = _sum([_abs2(q.get((n, i, k))) for k in range(2 * l + 1)])
+        # relative to the returned w (whose value is fixed by the clause above)
+        g, _ = sv.generalize(sv.implies(inr, sv.cmp("==", wcap.get((n, i)), sv.mul(sv.power(n2, sv.to_frac(-1.5)), w.get((n, i))))), [w.get((n, i))], "w")
+        yield "w^_l=w_l*(sum_m|q_lm|^2)^(-3/2)", g
+        fw, fc = inp["files"]
+        writes = [e for e in out.state.trace if e[0] in ("np.save", "np.savetxt")]
+        if fw is None:
+            yield "files=returned", len(writes) == 0
+        else:
+            want_w = [("np.save", fw, w), ("np.savetxt", fw, w), ("np.save", fc, wcap)]
+            good = len(writes) == 3 and all(e[0] == k and e[1] == f for e, (k, f, _) in zip(writes, want_w))
+            if not good:
+                yield "files=returned", False
+            else:
+                yield "files=returned", sv.implies(inr, sv.and_(*[sv.cmp("==", e[2].get((n, i)), a.get((n, i))) for e, (_, _, a) in zip(writes, want_w)])), {"ring_only": True}
+
+    def replay(self, case, clause, model, seed):
+        return _replay_boo("w_W_cap", case, clause, model, seed)
+
+
+# ---- lemmas on the spec (fresh variables) -------------------------------------------------------------------------
+
+def lemmas():
+    out = []
+    # |s_ij| <= 1 (Cauchy-Schwarz) through Lagrange's identity for vectors of length 2l+1:
+    #   |a|^2 |b|^2 - Re<a,b>^2 = Im<a,b>^2 + sum_{m<m'} |a_m b_m' - a_m' b_m|^2  >= 0,   <a,b> = sum_m a_m conj(b_m)
+    for l in range(1, 13):
+        M = 2 * l + 1
+        a = [sv.Cx(sv.real(f"a{m}r"), sv.real(f"a{m}i")) for m in range(M)]
+        b = [sv.Cx(sv.real(f"b{m}r"), sv.real(f"b{m}i")) for m in range(M)]
+        ip = sv.as_cx(_sum([sv.mul(x, sv.conj(y)) for x, y in zip(a, b)]))
+        lhs = sv.sub(sv.mul(_sum([_abs2(x) for x in a]), _sum([_abs2(y) for y in b])), sv.mul(ip.re, ip.re))
+        rhs = sv.mul(ip.im, ip.im)
+        for m1 in range(M):
+            for m2 in range(m1 + 1, M):
+                rhs = sv.add(rhs, _abs2(sv.sub(sv.mul(a[m1], b[m2]), sv.mul(a[m2], b[m1]))))
+        out.append((f"lemma:l={l}:|s_ij|<=1:Lagrange-identity(|a|^2|b|^2-Re<a,b>^2=sum-of-squares)", sv.cmp("==", lhs, rhs), {"ring_only": True}))
+    # s^2 <= 1 from the identity: U^2 = P - R with R >= 0, P = na^2 nb^2 > 0, s = U/(na nb)
+    U, R, na, nb_ = sv.real("U"), sv.real("R"), sv.real("na"), sv.real("nb")
+    s = sv.div(U, sv.mul(na, nb_))
+    hyp = sv.and_(na > 0, nb_ > 0, R >= 0, sv.cmp("==", sv.mul(U, U), sv.sub(sv.mul(sv.mul(na, na), sv.mul(nb_, nb_)), R)))
+    out.append(("lemma:|s_ij|<=1:from-the-identity", sv.implies(hyp, sv.and_(sv.cmp("<=", s, 1), sv.cmp(">=", s, -1))), {}))
+    # 0 <= q_l <= 1: induction over the bonds.  q^(k+1) = (1-t) q^(k) + t Y_{k+1} with t = w_{k+1}/W_{k+1} in [0,1]; per component
+    #   (1-t)|x|^2 + t|y|^2 - |(1-t)x + t y|^2 = t(1-t)|x-y|^2      (ring identity; summed over m by linearity)
+    # and with sum_m |Y_lm|^2 = (2l+1)/(4 pi) =: C (addition theorem, C08) the step  |q^(k)|^2 <= C  ==>  |q^(k+1)|^2 <= C.
+    x, y, t = sv.Cx(sv.real("xr"), sv.real("xi")), sv.Cx(sv.real("yr"), sv.real("yi")), sv.real("t")
+    mix = sv.add(sv.mul(sv.sub(1, t), x), sv.mul(t, y))
+    out.append(("lemma:0<=q_l<=1:convexity-identity-per-component",
+                sv.cmp("==", sv.sub(sv.add(sv.mul(sv.sub(1, t), _abs2(x)), sv.mul(t, _abs2(y))), _abs2(mix)),
+                       sv.mul(sv.mul(t, sv.sub(1, t)), _abs2(sv.sub(x, y)))), {"ring_only": True}))
+    Aq, By, Cc, Dd, Xn = sv.real("A"), sv.real("B"), sv.real("C"), sv.real("D"), sv.real("X")
+    hyp = sv.and_(t >= 0, t <= 1, Aq <= Cc, sv.cmp("==", By, Cc), Dd >= 0,
+                  sv.cmp("==", Xn, sv.sub(sv.add(sv.mul(sv.sub(1, t), Aq), sv.mul(t, By)), sv.mul(sv.mul(t, sv.sub(1, t)), Dd))))
+    out.append(("lemma:0<=q_l<=1:induction-step(|q^(k)|^2<=C=>|q^(k+1)|^2<=C)", sv.implies(hyp, sv.cmp("<=", Xn, Cc)), {}))
+    # base: one bond, q = Y: |q|^2 = C;  conclusion: q_l^2 = 4 pi/(2l+1) |q|^2 <= 1 when |q|^2 <= (2l+1)/(4 pi)
+    lz, n2 = sv.real("twolplus1"), sv.real("n2")
+    hyp = sv.and_(lz >= 3, n2 >= 0, sv.cmp("<=", n2, sv.div(lz, sv.mul(4, sv.PI))))
+    val = sv.mul(sv.div(sv.mul(4, sv.PI), lz), n2)
+    out.append(("lemma:0<=q_l<=1:4pi/(2l+1)|q|^2-in-[0,1]", sv.implies(hyp, sv.and_(sv.cmp(">=", val, 0), sv.cmp("<=", val, 1))), {}))
+    # equal weights reproduce the unweighted result: w_j = a for all j  =>  w_j / (cn a) = 1/cn   (sum_{j<cn} a = cn a)
+    aw, cnr = sv.real("a_w"), sv.real("cn")
+    out.append(("lemma:equal-weights=>omega_j=1/cn", sv.implies(sv.and_(aw > 0, cnr >= 1), sv.cmp("==", sv.div(aw, sv.mul(cnr, aw)), sv.div(1, cnr))), {}))
+    return out
+
+
+def extra_checks(tier, seed, repo):
+    from pyvc import solve
+    from pyvc.state import State, use_state
+    from pyvc.vc import ObResult
+    obs = []
+    with use_state(State()):
+        for name, goal, opts in lemmas():
+            ob = ObResult(f"C09:{name}")
+            ob.add(solve.prove([], sv.zb(goal) if isinstance(goal, sv.SV) else z3.BoolVal(bool(goal)), 20, opts))
+            obs.append(ob.finish().as_dict())
+    return {"obligations": obs}
+
+
+UNITS = [QlQl(), QlmQlm(), Sij(), WCap()]
+
+MANIFEST = {
+    "text": "boo_3d.qlm_Qlm, ql_Ql, sij_ql_Ql, w_W_cap and utils.funcs.Wignerindex (real ASTs, re-read every run; symbolic frame number T, "
+            "particle number N, degree l >= 1 (w_W_cap: l = 2), neighbour arrays, cells, masks, Nmax, threshold c): q_lm(n,i) returned by "
+            "qlm_Qlm equals (1/cn) sum_j Y_lm(arccos(b_z/|b|), atan2(b_y,b_x)) over the minimum-image bonds of the neighbour file "
+            "(unweighted) resp. sum_j (w_j / sum_j' w_j') Y_lm (weight file; the code's sum over the zero-padded row equals the sum of the "
+            "cn_i weights), frame k of both files is used for snapshot k, Q_lm = (q_i + sum_j q_j)/(1+cn_i) over the returned q; index "
+            "bounds and loop summaries of the three nested loops; ql_Ql = sqrt(4 pi/(2l+1) sum_m |q_lm|^2) >= 0 for both fields, saved "
+            "file = returned array; sij_ql_Ql returns per frame [id, cn, s_ij (j < cn), 0 padding] with s_ij = Re(q_i.conj q_j)/(|q_i||q_j|), "
+            "the csv frame holds id, #{j < cn_i : s_ij > c}, cn_i at row n*N+i, the ValueError branch is unreachable; w_l and w^_l (eq. 6, 7) "
+            "with Wignerindex executed from its body; lemmas: Lagrange identity => |s_ij| <= 1 for l = 1..12, convexity identity + induction "
+            "step + base => 0 <= q_l <= 1, equal weights => omega_j = 1/cn.",
+    "note": "floats as reals (A1, s_ij is stored in float32); callee contracts of read_neighbors (C05), sph_harm_l (C08), remove_pbc (C02); "
+            "Y_lm abstract (only the table layout is used); positive weights and cn_i >= 1 as the property states; spatial_corr / time_corr "
+            "not under contract; on the unfixed /repo the obligation csv:count fails for c < 0 (padding counted, design_notes/C09.fix-1.diff)",
+}
